@@ -74,19 +74,19 @@ def mem2Sim (c : MemCfg) : Sim (mem2Impl c) where
     by simp [mem2Impl, M2Batch.del, specImpl, h.2.2]⟩
   delRange := fun s e _ h => ⟨by simp [mem2Impl, M2Batch.delRange, specImpl, h.1], m2OK_delRange h.2.1 s e,
     by simp [mem2Impl, M2Batch.delRange, specImpl, h.2.2]⟩
-  get := fun {d mb sb} k h => by
+  get := fun {d mb sb} k _ h => by
     show RGet.ofOption (M2Batch.get d mb k) = RGet.ofOption ((applyLog d sb.log).get k)
     rw [h.2.1 d k, h.1]
-  has := fun {d mb sb} k h => by
+  has := fun {d mb sb} k _ h => by
     show ROut.bool (M2Batch.get d mb k).isSome = ROut.bool ((applyLog d sb.log).get k).isSome
     rw [h.2.1 d k, h.1]
-  view := fun {d mb sb} h => by
+  view := fun {d mb sb} _ h => by
     show (Sum.inr (M2Batch.flush d mb) : Sum ROut KV) = Sum.inr (applyLog d sb.log)
     rw [m2_flush_eq, h.1]
-  flush := fun {i d mb sb} h => by
+  flush := fun {i d mb sb} _ h => by
     show M2Batch.flush d mb = applyLog d sb.log
     rw [m2_flush_eq, h.1]
-  size := fun h _ => h.2.2
+  size := fun _ _ h _ => h.2.2
   rebase := fun _ h _ => h
   dget := fun _ _ => rfl
   dhas := fun _ _ => rfl
